@@ -233,36 +233,75 @@ func c19Table(c *Ctx, r *Report) []string {
 		return nil
 	}
 	var lits []string
-	ast.Inspect(fd, func(n ast.Node) bool {
-		cl, ok := n.(*ast.CompositeLit)
-		if !ok {
-			return true
-		}
-		tv, ok := util.TypesInfo.Types[cl]
-		if !ok {
-			return true
-		}
-		if m, ok := tv.Type.Underlying().(*types.Map); ok {
-			if sl, ok := m.Elem().Underlying().(*types.Slice); ok && types.Identical(sl.Elem(), types.Typ[types.String]) {
-				for _, el := range cl.Elts {
-					kv, ok := el.(*ast.KeyValueExpr)
-					if !ok {
-						continue
-					}
-					inner, ok := kv.Value.(*ast.CompositeLit)
-					if !ok {
-						r.Unk("cidr-parses", "entry", kv.Pos(), "category value is not a literal list")
-						continue
-					}
-					for _, e := range inner.Elts {
-						if tv, ok := util.TypesInfo.Types[e]; ok && tv.Value != nil && tv.Value.Kind() == constant.String {
-							lits = append(lits, constant.StringVal(tv.Value))
-						} else {
-							r.Unk("cidr-parses", "entry", e.Pos(), "table entry is not a constant string")
-						}
+	// the table: every constant string that sits in a []string literal, or in a string
+	// field of a struct literal, inside init — or inside the initialiser of a
+	// package-level variable that init refers to (map-of-lists, ordered rows, one flat
+	// list: the layout is free, the entries are what is checked)
+	var collect func(n ast.Node)
+	seenLit := map[*ast.CompositeLit]bool{}
+	collect = func(n ast.Node) {
+		ast.Inspect(n, func(n ast.Node) bool {
+			cl, ok := n.(*ast.CompositeLit)
+			if !ok || seenLit[cl] {
+				return true
+			}
+			tv, ok := util.TypesInfo.Types[cl]
+			if !ok {
+				return true
+			}
+			take := func(e ast.Expr) {
+				if kv, isKV := e.(*ast.KeyValueExpr); isKV {
+					e = kv.Value
+				}
+				if _, nested := e.(*ast.CompositeLit); nested {
+					return // visited on its own
+				}
+				etv, ok := util.TypesInfo.Types[e]
+				if !ok {
+					return
+				}
+				if b, isB := etv.Type.Underlying().(*types.Basic); !isB || b.Info()&types.IsString == 0 {
+					return
+				}
+				if etv.Value != nil && etv.Value.Kind() == constant.String {
+					lits = append(lits, constant.StringVal(etv.Value))
+				} else {
+					r.Unk("cidr-parses", "entry", e.Pos(), "table entry is not a constant string")
+				}
+			}
+			switch u := tv.Type.Underlying().(type) {
+			case *types.Slice:
+				if types.Identical(u.Elem(), types.Typ[types.String]) {
+					seenLit[cl] = true
+					for _, e := range cl.Elts {
+						take(e)
 					}
 				}
-				return false
+			case *types.Array:
+				if types.Identical(u.Elem(), types.Typ[types.String]) {
+					seenLit[cl] = true
+					for _, e := range cl.Elts {
+						take(e)
+					}
+				}
+			case *types.Struct:
+				seenLit[cl] = true
+				for _, e := range cl.Elts {
+					take(e)
+				}
+			}
+			return true
+		})
+	}
+	collect(fd.Body)
+	ast.Inspect(fd.Body, func(n ast.Node) bool {
+		id, ok := n.(*ast.Ident)
+		if !ok {
+			return true
+		}
+		if v, ok := util.TypesInfo.Uses[id].(*types.Var); ok && v.Pkg() == util.Types && v.Parent() == util.Types.Scope() && v.Name() != "reservedNetworks" {
+			if init := varInit(util, v); init != nil {
+				collect(init)
 			}
 		}
 		return true
